@@ -46,15 +46,16 @@ def programs_for(ctx):
         i += 1
         if p is not None:
             progs.append(("gen:%d" % i, p))
-    # a stream (mostly) inside the proved fragment (Frag.frag1): one crossing of plain factors, free factors,
-    # Repeat / MinimumTrials for several rounds and a leftover round, exclusions and constraints by rejection
+    # a stream (mostly) inside the proved fragment (Frag.frag2): one crossing of plain factors, free factors,
+    # Repeat / MinimumTrials for several rounds and a leftover round, exclusions and constraints by rejection,
+    # every third one with weighted levels / a crossing weight
     nfrag = 40 if ctx.quick else 300
     j = 0
     tries = 0
     while j < nfrag and tries < 50 * nfrag:
         tries += 1
         p = gen_design.gen_program(ctx.rng, 3000, shape=ctx.rng.choice(["cross", "cross", "repeat"]),
-                                   features={"derived": False, "weighted_p": 0.0})
+                                   features={"derived": False, "weighted_p": 0.5 if j % 3 == 2 else 0.0})
         if p is None:
             continue
         if j % 2 == 0:
@@ -273,11 +274,11 @@ def features(rec):
 def run(ctx, res):
     progs = programs_for(ctx)
     res.rule = ("%d programs: hand-written corpus + gen_design.gen_program(max_space=%d) (all shapes: cross/multi/repeat/merge/nest, "
-                "derived within/transition/window, every constraint kind, weights) + a stream inside the proved fragment Frag.frag1 "
+                "derived within/transition/window, every constraint kind, weights) + a stream inside the proved fragment Frag.frag2 "
                 "(plain crossing, free factors, exclusions, constraints by rejection, Repeat/MinimumTrials rounds and leftover); every candidate key of designs with <= %d keys "
                 "decoded by the real enumerator and by the model; non-trivial = distinct (main crossing, preamble, crossing size, m, "
                 "weighted?, instances, possible keys) tuples" % (len(progs), MAX_SPACE, MAX_KEYS))
-    res.notes.append("level: proof for designs inside Frag.frag1 (Properties/C05.v, closed under the global context); outside it the "
+    res.notes.append("level: proof for designs inside Frag.frag2 (Properties/C05.v: *_partial on Frag.frag1, *_frag2 with weights; closed under the global context); outside it the "
                      "property is decided per design by exhaustive enumeration of the real enumerator's keys against the reference "
                      "oracle (translation validation), with the model tied to the code by layer L8")
     recs = random_corr.random_correspondence(ctx, res, [p for _, p in progs], max_keys=MAX_KEYS)
@@ -348,24 +349,33 @@ def run(ctx, res):
                 gen_thm["not-built"] += 1
             continue
         inside = t[0] in ("frag", "big", "refused")
-        in0 = inside and bool(t[-1] if t[0] != "frag" else t[7])
+        level = (t[10] if t[0] == "frag" else t[-1]) if inside else None     # 0: frag0, 1: frag1, 2: frag2 (weights)
         thm[t[0]] += 1
+        if inside and level == 2:
+            thm["weighted"] += 1
         if name.startswith("gen:"):
-            gen_thm["frag1" if inside else "outside"] += 1
-            if in0:
+            gen_thm["frag2" if inside else "outside"] += 1
+            if inside and level <= 1:
+                gen_thm["frag1"] += 1
+            if inside and level == 0:
                 gen_thm["frag0"] += 1
-        if t[0] == "frag" and not all(x is True for x in t[2:7]):
+        if t[0] == "frag" and not (all(x is True for x in t[2:7]) and t[11] is True):
             thm_bad.append((name, r, t))
-    ngen = sum(gen_thm[k] for k in ("frag1", "outside", "not-built"))
+    ngen = sum(gen_thm[k] for k in ("frag2", "outside", "not-built"))
+    share = lambda k: round(gen_thm.get(k, 0) / ngen, 4) if ngen else None
     res.extra["proved_fragment"] = {
-        "frag1_designs_evaluated": thm.get("frag", 0), "frag1_too_many_keys": thm.get("big", 0),
-        "frag1_refused_by_show_errors": thm.get("refused", 0), "outside_fragment": thm.get("outside", 0),
-        "generated_programs": ngen, "generated_in_frag1": gen_thm.get("frag1", 0), "generated_in_frag0": gen_thm.get("frag0", 0),
-        "share_of_generated_in_frag1": round(gen_thm.get("frag1", 0) / ngen, 4) if ngen else None,
-        "share_of_generated_in_frag0": round(gen_thm.get("frag0", 0) / ngen, 4) if ngen else None,
-        "note": "frag1 = Frag.frag1 (Properties/C04-C07 are proved for it; it contains the earlier Frag.frag0); shares are over the "
-                "gen_design.gen_program stream only (programs the constructors reject count as outside); for the designs inside "
-                "the fragment the executable statements of the theorems were also evaluated on the extracted model against Sem.all_valid"}
+        "frag2_designs_evaluated": thm.get("frag", 0), "frag2_too_many_keys": thm.get("big", 0),
+        "frag2_refused_by_show_errors": thm.get("refused", 0), "frag2_weighted_designs": thm.get("weighted", 0),
+        "outside_fragment": thm.get("outside", 0),
+        "generated_programs": ngen, "generated_in_frag2": gen_thm.get("frag2", 0),
+        "generated_in_frag1": gen_thm.get("frag1", 0), "generated_in_frag0": gen_thm.get("frag0", 0),
+        "share_of_generated_in_frag2": share("frag2"), "share_of_generated_in_frag1": share("frag1"),
+        "share_of_generated_in_frag0": share("frag0"),
+        "note": "frag2 = Frag.frag2 (Properties/C04-C07 *_frag2; weights), it contains Frag.frag1 (the *_partial theorems) which "
+                "contains the first fragment Frag.frag0; shares are over the gen_design.gen_program stream only (programs the "
+                "constructors reject count as outside); for the designs inside the fragment the executable statements of the "
+                "theorems - and the side condition FragSem.enumerates_b of the frag2 completeness / count theorems - were also "
+                "evaluated on the extracted model against Sem.all_valid"}
     res.extra["features_exercised"] = dict(feat)
     seen = set()
     for kind, what, key, i in found:
